@@ -70,6 +70,7 @@ def _run_unit_once(unit, outdir, threads=8, seed=None, timeout=900):
     except Exception:
         res['tool_error'] = 'no JSON from verus (rc=%s)' % rc
     ranges = unit.locate(text)
+    text_lines = text.split('\n')
     base = os.path.basename(path)
 
     def fn_at(line):
@@ -92,7 +93,8 @@ def _run_unit_once(unit, outdir, threads=8, seed=None, timeout=900):
         line = int(loc.group(1)) if loc else 0
         fn = fn_at(line) if line else '?'
         # the *failed* clause location (for post/preconditions verus points at the clause with a label)
-        entry = dict(fn=fn, kind=msg, line=line, text=b.strip()[:1500])
+        src_line = text_lines[line - 1] if 0 < line <= len(text_lines) else ''
+        entry = dict(fn=fn, kind=msg, line=line, text=b.strip()[:1500], in_ghost=('/*@ghost*/' in src_line))
         if any(k.lower() in msg.lower() for k in RESOURCE_KINDS):
             res['resource'].append(entry)
         elif any(msg.startswith(k) or k in msg for k in VERDICT_KINDS):
